@@ -1,8 +1,9 @@
 """C05 - Persisted FloatingIPs equal in-memory state; restart and crash safe."""
-import ipamcheck
+import ipamcheck, plugincheck
 
 THEOREMS = ["agree_invariant", "agree_step", "agree_quiescent", "restart_exact"]
 REFUTED = ["agree_refuted_reload_window_old", "agree_refuted_stale_event_old"]
+PLUGIN_THEOREMS = []
 
 KNOWN_FINDINGS = [
     {"id": "F3", "status": "fixed", "commit": "cdfc2c2", "tag": "c05-reload-window",
@@ -35,6 +36,9 @@ def run(ctx):
                        "and same_tables across every restart are evaluated on the implementation's dumps; a history is "
                        "non-trivial/distinct by its operation list")
     ipamcheck.run(ctx, "C05", "C05", THEOREMS, REFUTED)
+    # plugin level: the process dies inside a section (Model/PluginCrash.v), a new process starts, resyncs, binds again
+    plugincheck.run(ctx, "C05", PLUGIN_THEOREMS, [], plugincheck.mon_crash, ext=3, incarnations=False, nrandom=(0, 0),
+                    extra_scenarios=plugincheck.crash_scenarios(ctx.rng, ctx, 12 if ctx.quick else 120), fixed=False)
 
 
 def replay(ctx, path):
